@@ -498,8 +498,24 @@ class Engine:
                 if params is not None and params.order:
                     self.assumptions_used.add("A-LIB(dataclasses): generated __eq__/ordering compare the field tuples")
                     return compare(op, VTuple([self.devalue(oa.f[n], st) for n in names]), VTuple([self.devalue(ob.f[n], st) for n in names]))
+        if isinstance(op, (ast.Is, ast.IsNot)):
+            r = self.identical(a, b, st)
+            return r if isinstance(op, ast.Is) else z3.Not(r)
         a2, b2 = self.devalue(a, st), self.devalue(b, st)
-        return compare(op, a2, b2) if not isinstance(op, (ast.Is, ast.IsNot)) else compare(op, a, b)
+        return compare(op, a2, b2)
+
+    def identical(self, a, b, st):
+        """Python `is`.  A heap object and an opaque object term may denote the same object (an exception built here and
+        later read back from a future or a log): they are compared through the heap object's box term."""
+        if isinstance(a, VUnion):
+            return simp(z3.Or(*[z3.And(g, self.identical(x, b, st)) for g, x in a.alts]))
+        if isinstance(b, VUnion):
+            return simp(z3.Or(*[z3.And(g, self.identical(a, x, st)) for g, x in b.alts]))
+        mixed = (isinstance(a, VObj) and isinstance(b, (VRef, VFunc))) or (isinstance(b, VObj) and isinstance(a, (VRef, VFunc)))
+        if mixed:
+            from .heapmodel import box
+            return box(self, st, a) == box(self, st, b)
+        return values_identical(a, b)
 
     def struct_eq(self, a, b, st):
         """Python == : structural for tuples/lists, dataclass instances and protobuf message records."""
